@@ -71,7 +71,7 @@ type Task struct {
 	Pass        bool // uncontrolled: hooks return immediately
 	kill        bool
 	wake        chan struct{}
-	waitLock    *verifhook.RWMutex // instrumented lock this task is about to request (parked before the request)
+	waitLock    any // instrumented lock this task is about to request (parked before the request)
 	waitWrite   bool
 	waitName    string
 }
@@ -105,7 +105,7 @@ type Sim struct {
 	deadInst   map[int]bool
 	rewriting  map[int]bool // instance currently inside RewriteLog (engine.mut held)
 	writing    map[int]bool // instance whose write-commit mutex is held by some task
-	locks      map[*verifhook.RWMutex]*lockInfo
+	locks      map[any]*lockInfo
 	ParkLocks  map[string]bool // instrumented locks (by name) whose acquisitions are scheduling points in this run
 	Deadlock   string // description of a lock cycle among parked tasks, once one was seen
 	DeadlockOn string // the locks of that cycle ("conninfo+store")
@@ -155,7 +155,7 @@ func NewSim() *Sim {
 		tasks:     map[uint64]*Task{},
 		deadInst:  map[int]bool{},
 		rewriting: map[int]bool{}, writing: map[int]bool{},
-		locks:     map[*verifhook.RWMutex]*lockInfo{},
+		locks:     map[any]*lockInfo{},
 		copyOpen:  map[int]int{},
 		mutOpen:   map[int]int{},
 		Stats:     newStats(),
@@ -264,7 +264,7 @@ func (s *Sim) reap() {
 func (s *Sim) park(site string, spin bool) { s.parkEx(site, spin, false) }
 
 // holders returns the tasks other than t whose hold on m conflicts with the requested mode. s.mu held.
-func (s *Sim) holders(m *verifhook.RWMutex, t *Task, write bool) []*Task {
+func (s *Sim) holders(m any, t *Task, write bool) []*Task {
 	li := s.locks[m]
 	if li == nil {
 		return nil
@@ -288,14 +288,30 @@ func (s *Sim) holders(m *verifhook.RWMutex, t *Task, write bool) []*Task {
 // wait for a lock held by a descheduled task (or by the task being stepped right now) is descheduled
 // itself, whatever the profile's site filter says: a goroutine blocked on a sync mutex is not durably
 // blocked, the bubble would never become quiescent.
-func (s *Sim) hookLockYield(m *verifhook.RWMutex, name string, write bool) {
+func (s *Sim) hookLockYield(m any, name string, write bool) {
 	site := "rlock." + name
 	if write {
 		site = "lock." + name
 	}
 	g := goid()
-	if g == s.ctrl || s.reaping.Load() {
+	if s.reaping.Load() {
 		s.parkEx(site, false, false)
+		return
+	}
+	if g == s.ctrl {
+		// the controller itself (a white-box dump between steps) must never block on a lock that a descheduled
+		// task holds: the bubble would hang. The run ends here; runPlan decides what it means (a deadlock that was
+		// detected, or an inconclusive run).
+		s.mu.Lock()
+		blocked := len(s.holders(m, nil, write)) > 0
+		if blocked {
+			s.findDeadlock()
+		}
+		s.mu.Unlock()
+		if blocked {
+			lastCtrlBlocked.Store(true)
+			panic(ctrlBlocked{name})
+		}
 		return
 	}
 	s.mu.Lock()
@@ -306,7 +322,7 @@ func (s *Sim) hookLockYield(m *verifhook.RWMutex, name string, write bool) {
 			must = true
 		}
 	}
-	if name != "store" && !must && !s.ParkLocks[name] {
+	if name != "store" && name != "write" && !must && !s.ParkLocks[name] {
 		// profiles opt in to the scheduling points of the other locks (the store lock always was one)
 		s.mu.Unlock()
 		return
@@ -319,7 +335,7 @@ func (s *Sim) hookLockYield(m *verifhook.RWMutex, name string, write bool) {
 	s.mu.Unlock()
 }
 
-func (s *Sim) hookLockNote(m *verifhook.RWMutex, write bool, acquired bool) {
+func (s *Sim) hookLockNote(m any, write bool, acquired bool) {
 	g := goid()
 	if g == s.ctrl {
 		return
@@ -420,6 +436,12 @@ func (s *Sim) findDeadlock() {
 }
 
 type deadlockRec struct{ On, Detail string }
+
+// ctrlBlocked is the panic value with which the controller abandons a run in which it would have to wait for a
+// lock held by a descheduled task.
+type ctrlBlocked struct{ lock string }
+
+var lastCtrlBlocked atomic.Bool
 
 var lastDeadlock atomic.Pointer[deadlockRec]
 
@@ -752,6 +774,15 @@ func PickFair(parked []*Task, k int, limit int) (t *Task, livelock bool) {
 	if len(movers) > 0 {
 		return movers[k%len(movers)], false
 	}
+	// only busy-waiting tasks are left: each of them may be what clears the flag another one waits for (a writer
+	// that withdraws its announcement, a copier that finishes), so they take turns - the one that has re-tested
+	// its flag least often goes next. A livelock is declared only when every one of them has spun more than
+	// limit times.
+	for _, x := range parked {
+		if x.Spins < t.Spins {
+			t = x
+		}
+	}
 	return t, t.Spins > limit
 }
 
@@ -803,21 +834,34 @@ func (s *Sim) KillInstance(inst int) {
 // DrainAll releases parked tasks FIFO (and optionally advances time) until nothing is runnable or the budget ends.
 // Returns false if the budget was exhausted.
 func (s *Sim) DrainAll(budget int) bool {
+	idle := 0 // consecutive releases of tasks that only re-tested a busy-wait flag
 	for i := 0; i < budget; i++ {
 		p := s.ParkedTasks()
 		if len(p) == 0 {
 			return true
 		}
-		// prefer non-spinning tasks; a lone spinner is released too (its condition may now hold)
-		pick := p[0]
+		// prefer non-spinning tasks; among spinners the one that has waited least goes next (round robin):
+		// each of them may be what clears the flag another one waits for
+		var pick *Task
 		for _, t := range p {
 			if !strings.HasPrefix(t.Site, "spin:") {
 				pick = t
 				break
 			}
 		}
-		if strings.HasPrefix(pick.Site, "spin:") && pick.Spins > 200 {
-			return false
+		if pick == nil {
+			pick = p[0]
+			for _, t := range p {
+				if t.Spins < pick.Spins {
+					pick = t
+				}
+			}
+			idle++
+			if idle > 400*len(p) {
+				return false
+			}
+		} else {
+			idle = 0
 		}
 		s.Release(pick)
 	}
@@ -837,6 +881,9 @@ type bubbleResult struct {
 func RunBubble(t *testing.T, fn func()) (res bubbleResult) {
 	defer func() {
 		if r := recover(); r != nil {
+			if _, ok := r.(ctrlBlocked); ok {
+				return
+			}
 			msg := fmt.Sprint(r)
 			if strings.Contains(msg, "blocked goroutines remain") || strings.Contains(msg, "deadlock: main bubble goroutine has exited") {
 				return
@@ -847,6 +894,14 @@ func RunBubble(t *testing.T, fn func()) (res bubbleResult) {
 		}
 	}()
 	synctest.Test(t, func(t *testing.T) {
+		defer func() {
+			// the controller abandoned the run (see hookLockYield); anything else propagates
+			if r := recover(); r != nil {
+				if _, ok := r.(ctrlBlocked); !ok {
+					panic(r)
+				}
+			}
+		}()
 		fn()
 	})
 	return
